@@ -154,7 +154,7 @@ func (info RecipientInfo) WriteTo(utf8 bool, w io.Writer) error {
 	if smtpErr, ok := info.DiagnosticCode.(*smtp.SMTPError); ok {
 		// Error message may contain newlines if it is received from another SMTP server.
 		// But we cannot directly insert CR/LF into Disagnostic-Code so rewrite it.
-		msg := strings.ReplaceAll(strings.ReplaceAll(smtpErr.Message, "\n", " "), "\r", " ")
+		msg := fieldText(smtpErr.Message)
 		if !utf8 {
 			// message/delivery-status is limited to US-ASCII (RFC 3464 Section 2.1),
 			// only message/global-delivery-status may carry UTF-8.
@@ -171,8 +171,7 @@ func (info RecipientInfo) WriteTo(utf8 bool, w io.Writer) error {
 		// It might contain Unicode, so don't include it if we are not allowed to.
 		// ... I didn't bother implementing mangling logic to remove Unicode
 		// characters.
-		errorDesc := info.DiagnosticCode.Error()
-		errorDesc = strings.ReplaceAll(strings.ReplaceAll(errorDesc, "\n", " "), "\r", " ")
+		errorDesc := fieldText(info.DiagnosticCode.Error())
 
 		h.Add("Diagnostic-Code", "X-Maddy; "+errorDesc)
 	}
@@ -187,6 +186,19 @@ func (info RecipientInfo) WriteTo(utf8 bool, w io.Writer) error {
 	}
 
 	return textproto.WriteHeader(w, h)
+}
+
+// fieldText makes an error text usable as (a part of) a field value: CR, LF
+// and any other control character except the horizontal tab are replaced with
+// a space. A field containing them is not a valid RFC 5322 field and the whole
+// group of fields is rejected by parsers.
+func fieldText(s string) string {
+	return strings.Map(func(ch rune) rune {
+		if (ch < 0x20 && ch != '\t') || ch == 0x7f {
+			return ' '
+		}
+		return ch
+	}, s)
 }
 
 type Envelope struct {
